@@ -7,7 +7,7 @@ PROP_FILE = 'C07'
 
 
 def mons():
-    return [M.m_terminates, M.m_cancel, M.m_multipart_discipline, M.m_files, M.m_success_means_all_ok]
+    return [M.m_terminates, M.m_cancel, M.m_multipart_discipline, M.m_files, M.m_success_means_all_ok, M.m_callbacks]
 
 
 def specs(ctx):
@@ -15,6 +15,7 @@ def specs(ctx):
     hows = ['future', 'shutdown', 'exit_exc', 'exit_kbi', 'result_kbi', 'controller', 'exit_wait_kbi']
     s = sysrun.specs_cancel(ctx, sysrun.KINDS, hows, pts, seeds=2 if ctx.thorough() else 1)
     s += sysrun.specs_early_cancel(ctx, sysrun.KINDS[::2], seeds=2 if not ctx.thorough() else 4)
+    s += sysrun.specs_torn_state(ctx, sysrun.MULTIPART + sysrun.KINDS[::4], seeds=1 if not ctx.thorough() else 3)
     # Ctrl-C while the shutdown wait is blocked on a second, still queued transfer
     rng = ctx.rng('c07-two')
     for i, ts in enumerate(sysrun.KINDS):
@@ -22,6 +23,13 @@ def specs(ctx):
             s.append(dict(transfers=[ts, dict(sysrun.KINDS[(i + 3) % len(sysrun.KINDS)])],
                           cfg=dict(sysrun.CFG_SMALL, max_request_concurrency=1, max_submission_concurrency=1),
                           chooser=sysrun.chooser(rng, i), cancel=dict(how='exit_wait_kbi', at=at)))
+    # a cancel whose clean-up itself meets a failure (every close() of the temp file raises): the remaining
+    # clean-ups (the remove) and the other subscribers' on_done still run
+    for ts in sysrun.PATH_DOWNLOADS:
+        for at in (8, 20, 35, 50, 70):
+            s.append(dict(transfers=[dict(ts, subs=[dict(raise_in=['done']), dict()])], cfg=sysrun.CFG_SMALL,
+                          chooser=sysrun.chooser(rng, at), cancel=dict(how='shutdown', at=at, msg='stop it'),
+                          fs_fault=dict(op='close', nth='all')))
     # serial mode (executor_cls=NonThreadedExecutor): Ctrl-C arrives inside a request made in the caller's own
     # thread; it must abort the call, never be parked in a task's future and followed by a reported success
     s += sysrun.specs_nonthreaded_interrupt(ctx, sysrun.KINDS[:: (1 if ctx.thorough() else 2)])
